@@ -176,11 +176,16 @@ static void case_random(vh_rng* r, long index) {
     } else if (roll < 40 && R.writable) {
       if (R.last_was_read) { sseek(f, (int64_t)R.pos, SEEK_SET); R.last_was_read = 0; R.eof = 0; }
       int64_t v = vh_range(r, -99999, 99999);
-      char txt[64]; int tl = snprintf(txt, sizeof txt, "<%" PRId64 "|%s>", v, "ab");
-      snprintf(opd, sizeof opd, "print_to(\"<%%i|%%s>\")");
+      /* the text field of a record is often empty, a conversion that writes no character at all */
+      char word[24]; size_t wl = vh_chance(r, 30) ? 0 : vh_below(r, 20);
+      for (size_t i = 0; i < wl; i++) { word[i] = (char)('a' + vh_below(r, 26)); }
+      word[wl] = 0;
+      if (wl == 0) { vh_count("formatted_writes_with_an_empty_text_field"); }
+      char txt[96]; int tl = snprintf(txt, sizeof txt, "<%" PRId64 "|%s>", v, word);
+      snprintf(opd, sizeof opd, "print_to(\"<%%i|%%s>\", %" PRId64 ", \"%s\")", v, word);
       vh_op("%s", opd);
       int ret = -1;
-      VH_CATCH(ret = print_to(f, 0, "<%i|%s>", $I(v), $S("ab")), exc);
+      VH_CATCH(ret = print_to(f, 0, "<%i|%s>", $I(v), $S(word)), exc);
       vh_eval();
       if (exc) { vh_violation("C20:write:print_to-raised", "%s raised %s", opd, vh_exc_name(exc)); break; }
       if (ret != tl) { vh_violation("C20:write:print_to-return", "print_to returned %d for %d characters", ret, tl); }
